@@ -121,7 +121,13 @@ pub fn c03(tier: &str, seed: u64, meta: &str) -> Report {
         if !sessions.contains_key(&bits) {
             match psession(w, bits, true, None, None, "c03") { Ok(s) => { sessions.insert(bits, s); } Err(e) => { rep.diff(json!({"what": "context creation failed", "error": e})); return; } }
         }
-        let s = sessions.get_mut(&bits).unwrap();
+        // the very long word gets a context of its own and is judged by the monitor only (the list-based model needs
+        // quadratic time for it and would not add anything: okkhor called directly is the reference here)
+        let very_long = text.len() > 1000;
+        if very_long {
+            if let Ok(mut ls) = psession(w, bits, true, None, None, "c03l") { ls.model_dead = true; sessions.insert(u32::MAX, ls); }
+        }
+        let s = sessions.get_mut(&(if very_long { u32::MAX } else { bits })).unwrap();
         if s.history.len() > 3000 { s.history.clear(); }
         let mut evs = pr.key_events(&text, 0);
         evs.push(SEv::Finish);
